@@ -1,5 +1,7 @@
 """Rules specific to cJSON_Utils.c: TAB18 no narrowing of a decoded array index, ORD1 no use of a looked-up node
 after the document it came from was edited."""
+import re
+
 from ..facts import (AnalysisBroken, walk, strip_casts, expr_str, is_null_const, const_val, ASSIGN_OPS, callee_name)
 from ..dataflow import node_effects
 from .common import all_functions, assignments, is_ref, node_containing, guarded_by, cmp_parts
@@ -937,3 +939,142 @@ def dig1(units, R, unit_names=('cJSON.c', 'cJSON_Utils.c')):
                     % (expr_str(c), K, thr[1]) if thr[0] in ('>', '>=') and thr[1] >= K else 'condition %s does not match the division by %d' % (expr_str(c), K),
                     key='digits:%s:%d' % (fn.name, K))
     R.ob('DIG1', None, None, 'digit-counting loops examined', True, '%d loops' % n, key='census', file='cJSON_Utils.c', line=0)
+
+
+def gen2(units, R, floor=1):
+    """Array edit scripts of the patch generator.  Where a loop emits one "add" or "remove" operation per leftover element and
+    names the position with an index printed (sprintf, integer conversion) from a counter, RFC 6902 application shifts the
+    following elements after every operation:
+      - "remove" while walking forwards: the position must stay what it is - every removal moves the next leftover element to
+        that same index; a counter that steps forward in the loop skips every second element;
+      - "add" while walking forwards: every element goes behind the one added before it - the counter steps forward and the
+        index is printed again on every iteration; the same index for every element reverses their order ("-" appends and
+        needs no index).
+    A loop that walks backwards (x = x->prev) is not judged."""
+    from .parse import _sccs
+    u = units['cJSON_Utils.c']
+    INTCONV = re.compile(r'%[-+ #0]*\d*(?:hh|h|ll|l|z|j|t)?[diux]')
+    n = 0
+    for fn in u.function_list:
+        if fn.body is None:
+            continue
+        emits = []
+        for c in fn.calls():
+            ops = [bytes(strip_casts(a)['bytes']).decode('latin1') for a in c.get('args', []) if strip_casts(a).get('k') == 'str']
+            ops = [o for o in ops if o in ('add', 'remove')]
+            if len(ops) == 1 and callee_name(c) in u.functions:
+                emits.append((c, ops[0]))
+        if not emits:
+            continue
+        # index buffers: B written by sprintf(B, "..%lu..", idx)
+        prints = []        # (call, buffer decl, counter decl)
+        for c in fn.calls():
+            if callee_name(c) not in ('sprintf', 'snprintf') or len(c['args']) < 3:
+                continue
+            b = strip_casts(c['args'][0])
+            fi = 1 if callee_name(c) == 'sprintf' else 2
+            f = strip_casts(c['args'][fi]) if fi < len(c['args']) else {}
+            if b.get('k') != 'ref' or f.get('k') != 'str':
+                continue
+            fmt = bytes(f['bytes']).decode('latin1')
+            if len(INTCONV.findall(fmt)) != 1:
+                continue
+            # the integer argument: position of the conversion among the arguments
+            convs = re.findall(r'%(?:%|[-+ #0]*\d*(?:hh|h|ll|l|z|j|t)?[a-zA-Z])', fmt)
+            convs = [x for x in convs if x != '%%']
+            pos = [k for k, x in enumerate(convs) if INTCONV.fullmatch(x)]
+            if not pos or fi + 1 + pos[0] >= len(c['args']):
+                continue
+            iv = strip_casts(c['args'][fi + 1 + pos[0]])
+            if iv.get('k') == 'ref' and u.ty(iv.get('ty0', iv['ty']))['c'] == 'int':
+                prints.append((c, b['d'], iv['d']))
+        if not prints:
+            continue
+        cfg = fn.cfg()
+        succ = {m.id: {y for (y, _l) in cfg.succ[m.id]} for m in cfg.nodes}
+
+        def on_cycle_without(start, removed):
+            """is there a path start -> ... -> start that avoids the nodes in `removed`?"""
+            seen = set()
+            work = [y for y in succ[start] if y not in removed]
+            while work:
+                x = work.pop()
+                if x == start:
+                    return True
+                if x in seen:
+                    continue
+                seen.add(x)
+                work.extend(y for y in succ[x] if y not in removed)
+            return False
+        steps = {}      # counter decl -> {node id: +1 / -1 / 0 (other modification)}
+        for m in cfg.nodes:
+            for ev in node_effects(m):
+                if ev.kind == 'incdec' and is_ref(ev.lhs):
+                    steps.setdefault(strip_casts(ev.lhs)['d'], {})[m.id] = 1 if ev.delta > 0 else -1
+                elif ev.kind == 'store' and is_ref(ev.lhs):
+                    d = strip_casts(ev.lhs)['d']
+                    k = const_val(ev.node['r'])
+                    if ev.node['op'] == '+=' and k is not None and k > 0:
+                        steps.setdefault(d, {})[m.id] = 1
+                    elif ev.node['op'] == '-=' and k is not None and k > 0:
+                        steps.setdefault(d, {})[m.id] = -1
+                    else:
+                        steps.setdefault(d, {})[m.id] = 0
+        for (c, op) in emits:
+            bufs = {x['d'] for a in c['args'] for x in walk(a) if x.get('k') == 'ref' and x.get('d') in {p[1] for p in prints}}
+            if not bufs:
+                continue
+            node = node_containing(cfg, c)
+            if not on_cycle_without(node.id, set()):
+                continue            # a single operation, not one per element
+            # direction of the walk: the element handed to the emitter / tested by the loop is stepped through next or prev
+            walk_fields = set()
+            for m in cfg.nodes:
+                for ev in node_effects(m):
+                    if ev.kind == 'store' and ev.node['op'] == '=' and is_ref(ev.lhs):
+                        r = strip_casts(ev.node['r'])
+                        if r.get('k') == 'mem' and r['f'] in ('next', 'prev') and is_ref(r['b']) and \
+                                strip_casts(r['b'])['d'] == strip_casts(ev.lhs)['d']:
+                            # only steps that lie on a cycle through the emitting call
+                            if _reaches(succ, node.id, m.id) and _reaches(succ, m.id, node.id):
+                                walk_fields.add(r['f'])
+            if 'prev' in walk_fields:
+                R.note('GEN2: %s: the loop around the "%s" at line %d walks backwards; not judged' % (fn.name, op, node.line))
+                continue
+            for bd in sorted(bufs):
+                for ctr in sorted({p[2] for p in prints if p[1] == bd}):
+                    n += 1
+                    pnodes = {node_containing(cfg, p[0]).id for p in prints if p[1] == bd and p[2] == ctr}
+                    ups = {m for m, s in steps.get(ctr, {}).items() if s > 0}
+                    cname = next(x['n'] for p in prints if p[2] == ctr for x in walk(p[0]) if x.get('k') == 'ref' and x.get('d') == ctr)
+                    if op == 'remove':
+                        bad = [m for m in ups if _reaches(succ, node.id, m) and _reaches(succ, m, node.id)]
+                        R.ob('GEN2', fn, c, 'leftover elements are removed at a position that does not move forward', not bad,
+                             'counter %s is not stepped forward in the loop' % cname if not bad else
+                             'counter %s is stepped forward at line %d inside the loop: after a removal the next leftover element '
+                             'already sits at the same index, so every second one is skipped' % (cname, cfg.nodes[bad[0]].line),
+                             key='remove:%s' % cname)
+                    else:
+                        stepped = not on_cycle_without(node.id, ups)
+                        printed = not on_cycle_without(node.id, pnodes)
+                        ok = stepped and printed
+                        R.ob('GEN2', fn, c, 'each new element is added behind the one added before it', ok,
+                             'counter %s is stepped and the index printed again on every iteration' % cname if ok else
+                             ('counter %s is not stepped forward on every iteration' % cname if not stepped else
+                              'the index is printed from %s outside the loop' % cname) +
+                             ': every element is inserted at the same index, which reverses their order', key='add:%s' % cname)
+    R.floor('GEN2', 'indexed add/remove loops of the patch generator', n, floor)
+
+
+def _reaches(succ, a, b):
+    seen = set()
+    work = list(succ[a])
+    while work:
+        x = work.pop()
+        if x == b:
+            return True
+        if x in seen:
+            continue
+        seen.add(x)
+        work.extend(succ[x])
+    return False
